@@ -380,5 +380,185 @@ pub broadcast proof fn b_parse_i32_sub4(s: Seq<char>, a: int, b: int)
 }
 pub broadcast group group_digits { b_parse_sub2, b_parse_sub4, b_parse_i32_sub4 }
 
+// ---------------- str::lines / str::split('\n') / join composition (C02 at field level for the multi-line fields)
+pub open spec fn no_nl(l: Seq<char>) -> bool { forall|i: int| 0 <= i < l.len() ==> #[trigger] l[i] != '\n' }
+pub open spec fn no_crlf(l: Seq<char>) -> bool { forall|i: int| 0 <= i < l.len() ==> #[trigger] l[i] != '\n' && l[i] != '\r' }
+pub open spec fn line_views(v: Seq<String>) -> Seq<Seq<char>> { Seq::new(v.len(), |i: int| v[i]@) }
+/// the text a serialiser writes for a list of lines: the lines joined by `sep`
+pub open spec fn join_chars(ss: Seq<Seq<char>>, sep: Seq<char>) -> Seq<char>
+    decreases ss.len()
+{
+    if ss.len() == 0 { Seq::<char>::empty() } else if ss.len() == 1 { ss[0] } else { join_chars(ss.drop_last(), sep) + sep + ss.last() }
+}
+pub proof fn lemma_join_line_views(v: Seq<String>, sep: Seq<char>)
+    ensures join_spec(v, sep) == join_chars(line_views(v), sep)
+    decreases v.len()
+{
+    if v.len() >= 2 {
+        lemma_join_line_views(v.drop_last(), sep);
+        assert(line_views(v).drop_last() =~= line_views(v.drop_last()));
+    }
+}
+/// lines as a parser may store them if the text is to be read back by str::lines: not empty, no line feed inside, and no
+/// carriage return at the end of a line that is followed by another one (str::lines would strip it)
+pub open spec fn clean_lines(v: Seq<Seq<char>>) -> bool {
+    forall|i: int| 0 <= i < v.len() ==> (#[trigger] v[i]).len() >= 1 && no_nl(v[i]) && (i < v.len() - 1 ==> v[i].last() != '\r')
+}
+pub proof fn lemma_nl_pos_prefix(a: Seq<char>, b: Seq<char>)
+    requires no_nl(a)
+    ensures nl_pos(a + seq!['\n'] + b) == a.len(), nl_pos(a) == a.len()
+    decreases a.len()
+{
+    let s = a + seq!['\n'] + b;
+    if a.len() == 0 {
+        assert(s[0] == '\n');
+    } else {
+        assert(s[0] == a[0]);
+        assert(a[0] != '\n');
+        let a1 = a.subrange(1, a.len() as int);
+        assert(s.subrange(1, s.len() as int) =~= a1 + seq!['\n'] + b);
+        assert(no_nl(a1)) by { assert forall|i: int| 0 <= i < a1.len() implies #[trigger] a1[i] != '\n' by { assert(a1[i] == a[i + 1]); } }
+        lemma_nl_pos_prefix(a1, b);
+    }
+}
+/// one step of str::lines: a first line without line feed, then a line feed, then the rest
+pub proof fn lemma_lines_cons(a: Seq<char>, b: Seq<char>)
+    requires no_nl(a)
+    ensures lines_spec(a + seq!['\n'] + b) == seq![strip_cr(a)] + lines_spec(b)
+{
+    let s = a + seq!['\n'] + b;
+    lemma_nl_pos_prefix(a, b);
+    reveal_with_fuel(lines_spec, 1);
+    assert(s.subrange(0, a.len() as int) =~= a);
+    assert(s.subrange(a.len() as int + 1, s.len() as int) =~= b);
+}
+pub proof fn lemma_lines_single(a: Seq<char>)
+    requires no_nl(a), a.len() >= 1
+    ensures lines_spec(a) == seq![a]
+{
+    lemma_nl_pos_prefix(a, Seq::<char>::empty());
+    reveal_with_fuel(lines_spec, 1);
+}
+pub proof fn lemma_join_left(v: Seq<Seq<char>>, sep: Seq<char>)
+    requires v.len() >= 2
+    ensures join_chars(v, sep) =~= v[0] + sep + join_chars(v.subrange(1, v.len() as int), sep)
+    decreases v.len()
+{
+    let t = v.subrange(1, v.len() as int);
+    if v.len() == 2 {
+        assert(v.drop_last().len() == 1);
+        assert(t.len() == 1);
+        assert(join_chars(v.drop_last(), sep) == v[0]);
+        assert(join_chars(t, sep) == v[1]);
+    } else {
+        let d = v.drop_last();
+        lemma_join_left(d, sep);
+        assert(d.subrange(1, d.len() as int) =~= t.drop_last());
+        assert(t.last() == v.last());
+        assert(d[0] == v[0]);
+        assert(join_chars(t, sep) == join_chars(t.drop_last(), sep) + sep + t.last());
+    }
+}
+/// reading back (str::lines) the lines joined with line feeds gives the lines
+pub proof fn lemma_lines_join(v: Seq<Seq<char>>)
+    requires v.len() >= 1, clean_lines(v)
+    ensures lines_spec(join_chars(v, seq!['\n'])) =~= v
+    decreases v.len()
+{
+    if v.len() == 1 {
+        lemma_lines_single(v[0]);
+    } else {
+        let t = v.subrange(1, v.len() as int);
+        lemma_join_left(v, seq!['\n']);
+        assert(clean_lines(t)) by { assert forall|i: int| 0 <= i < t.len() implies (#[trigger] t[i]).len() >= 1 && no_nl(t[i]) && (i < t.len() - 1 ==> t[i].last() != '\r') by { assert(t[i] == v[i + 1]); } }
+        lemma_lines_join(t);
+        lemma_lines_cons(v[0], join_chars(t, seq!['\n']));
+        assert(strip_cr(v[0]) == v[0]);
+        assert(v =~= seq![v[0]] + t);
+    }
+}
+/// the form used by the field units: every written line is non-empty and free of CR / LF
+pub proof fn lemma_lines_join_crlf(v: Seq<Seq<char>>)
+    requires v.len() >= 1, forall|i: int| 0 <= i < v.len() ==> (#[trigger] v[i]).len() >= 1 && no_crlf(v[i])
+    ensures lines_spec(join_chars(v, seq!['\n'])) =~= v
+{
+    assert(clean_lines(v)) by {
+        assert forall|i: int| 0 <= i < v.len() implies (#[trigger] v[i]).len() >= 1 && no_nl(v[i]) && (i < v.len() - 1 ==> v[i].last() != '\r') by {
+            let l = v[i];
+            assert(no_crlf(l));
+            assert(l.last() == l[l.len() - 1]);
+        }
+    }
+    lemma_lines_join(v);
+}
+
+pub proof fn lemma_split_cons(a: Seq<char>, b: Seq<char>)
+    requires no_nl(a)
+    ensures split_nl(a + seq!['\n'] + b) == seq![a] + split_nl(b)
+{
+    let s = a + seq!['\n'] + b;
+    lemma_nl_pos_prefix(a, b);
+    reveal_with_fuel(split_nl, 1);
+    assert(s.subrange(0, a.len() as int) =~= a);
+    assert(s.subrange(a.len() as int + 1, s.len() as int) =~= b);
+}
+pub proof fn lemma_split_single(a: Seq<char>)
+    requires no_nl(a)
+    ensures split_nl(a) == seq![a]
+{
+    lemma_nl_pos_prefix(a, Seq::<char>::empty());
+    reveal_with_fuel(split_nl, 1);
+}
+/// reading back (str::split('\n')) the lines joined with line feeds gives the lines (empty lines included)
+pub proof fn lemma_split_join(v: Seq<Seq<char>>)
+    requires v.len() >= 1, forall|i: int| 0 <= i < v.len() ==> no_nl(#[trigger] v[i])
+    ensures split_nl(join_chars(v, seq!['\n'])) =~= v
+    decreases v.len()
+{
+    if v.len() == 1 {
+        lemma_split_single(v[0]);
+    } else {
+        let t = v.subrange(1, v.len() as int);
+        lemma_join_left(v, seq!['\n']);
+        assert forall|i: int| 0 <= i < t.len() implies no_nl(#[trigger] t[i]) by { assert(t[i] == v[i + 1]); }
+        lemma_split_join(t);
+        lemma_split_cons(v[0], join_chars(t, seq!['\n']));
+        assert(v =~= seq![v[0]] + t);
+    }
+}
+
+/// a text that is not empty has at least one line
+pub proof fn lemma_lines_len(s: Seq<char>)
+    requires s.len() > 0
+    ensures lines_spec(s).len() >= 1
+{
+    reveal_with_fuel(lines_spec, 1);
+}
+
+/// an occurrence implies a first occurrence
+pub proof fn lemma_least_occurrence(s: Seq<char>, p: Seq<char>, i: int)
+    requires is_sub_at(s, p, i)
+    ensures exists|k: int| first_at(s, p, k)
+    decreases i
+{
+    reveal(first_at);
+    if exists|j: int| 0 <= j < i && is_sub_at(s, p, j) {
+        let j = choose|j: int| 0 <= j < i && is_sub_at(s, p, j);
+        lemma_least_occurrence(s, p, j);
+    } else {
+        assert(first_at(s, p, i));
+    }
+}
+pub proof fn lemma_first_idx(s: Seq<char>, p: Seq<char>)
+    requires contains_seq(s, p)
+    ensures first_at(s, p, first_idx(s, p)), is_sub_at(s, p, first_idx(s, p))
+{
+    reveal(contains_seq);
+    let i = choose|i: int| is_sub_at(s, p, i);
+    lemma_least_occurrence(s, p, i);
+    let k = choose|k: int| first_at(s, p, k);
+    lemma_first_unique(s, p, k);
+}
+
 } // verus!
 } // mod lem
